@@ -420,7 +420,12 @@ pub fn replay_c19(case: &J, rep: &mut Report) -> Result<(), String> {
 // ------------------------------------------------------------ C20
 
 fn shaped_collection(rng: &mut Rng, tier: Tier, which: usize) -> (Vec<Vec<u8>>, &'static str) {
-    match which % 12 {
+    match which % 13 {
+        12 => {
+            // one wide node: the fan-out sweeps over every encoding limit
+            // (1-9, 64, 125-131, 252-256) by global index
+            (crate::walk::shaped_patterns(rng, (which / 13) * 10 + (which / 13) % 3), "wide node fan-out sweep")
+        }
         0 => (vec![], "no patterns"),
         1 => ((0..rng.range(1, 4)).map(|_| vec![]).collect(), "only empty patterns"),
         2 => {
